@@ -189,6 +189,8 @@ func UseSites() []UseSite {
 		{Tag: "twin s2.Reset() same name other type", Stmt: "s2.Reset()", Kind: UKNone, TONL: true, Core: true},
 		{Tag: "twin s2.ResetP() same name other type", Stmt: "s2.ResetP()", Kind: UKNone, TONL: true},
 		{Tag: "twin Plain{}", Stmt: "_ = {q}Plain{}", Kind: UKNone, TONL: true},
+		{Tag: "twin group-sibling PlainSib{}", Stmt: "_ = {q}PlainSib{}", Kind: UKNone, TONL: true, Core: true},
+		{Tag: "twin group-sibling var PlainSib", Stmt: "var $v {q}PlainSib; _ = $v", Kind: UKNone, TONL: true},
 		{Tag: "twin var Plain", Stmt: "var $v {q}Plain; _ = $v", Kind: UKNone, TONL: true},
 		{Tag: "shadow local Helper", Stmt: "func() { Helper := func() int { return 0 }; _ = Helper() }()", Kind: UKNone, TONL: true, Core: true},
 		{Tag: "shadow param Helper", Stmt: "func(Helper func() int) { _ = Helper() }(nil)", Kind: UKNone, TONL: true},
@@ -357,6 +359,7 @@ type UseSiteInst struct {
 	FileNo int
 	Line   int
 	Exempt bool // inside a @testonly function/method of the using package
+	PKGOOnly bool // an alias declaration: a reference (@packageonly) but none of the uses the @testonly statement lists
 	Refs   []UseRef
 }
 
@@ -395,9 +398,13 @@ func (m UseMix) ann(w *lineWriter, indent string, item int) {
 func usePreludeD(w *lineWriter, m UseMix) {
 	chunk := func(f func()) func() { return f }
 	tMock := chunk(func() {
-		w.add("// Mock is a test double.")
-		m.ann(w, "", ItMock)
-		w.add("type Mock struct{ A int }")
+		// Mock lives in a type group and is followed by a sibling WITHOUT a doc comment of its own
+		w.add("type (")
+		w.add("\t// Mock is a test double.")
+		m.ann(w, "\t", ItMock)
+		w.add("\tMock struct{ A int }")
+		w.add("\tPlainSib struct{ A int }")
+		w.add(")")
 		w.add("")
 		w.add("// GMock is a generic test double carrying the same annotations.")
 		m.ann(w, "", ItMock)
@@ -492,6 +499,19 @@ func usePreludeD(w *lineWriter, m UseMix) {
 	}
 }
 
+// trailOf is the trailing comment of a one-line declaration (" // @ignore ..."), if any.
+func trailOf(b UseBlock) string {
+	if b.Trail == "" {
+		return ""
+	}
+	return " " + b.Trail
+}
+
+// OneLiner reports whether the encloser renders as a single-line top-level declaration that is itself a site.
+func (e UseEncl) OneLiner() bool {
+	return e == UEParamMock || e == UEResultMock || e == UEPkgVarTyped || e == UEPkgVarLit
+}
+
 // RenderUse renders the spec.
 func RenderUse(s *UseSpec) *UseRendered {
 	out := &UseRendered{}
@@ -581,7 +601,7 @@ func RenderUse(s *UseSpec) *UseRendered {
 	if s.Spell == SpLocalAlias {
 		// the alias declarations themselves mention the types: they are sites (first reference in the file)
 		ln := w0.add("type AMock = " + q + "Mock")
-		perFile[0] = append(perFile[0], UseSiteInst{Tag: "alias-decl Mock", Kind: UKType, Type: "Mock", Block: -1, FileNo: 0, Line: ln})
+		perFile[0] = append(perFile[0], UseSiteInst{Tag: "alias-decl Mock", Kind: UKType, Type: "Mock", Block: -1, FileNo: 0, Line: ln, PKGOOnly: true})
 		usesMock2 := false
 		for _, b := range s.Blocks {
 			for _, si := range b.Stmts {
@@ -597,7 +617,7 @@ func RenderUse(s *UseSpec) *UseRendered {
 		}
 		if usesMock2 {
 			ln = w0.add("type AMock2 = " + q + "Mock2")
-			perFile[0] = append(perFile[0], UseSiteInst{Tag: "alias-decl Mock2", Kind: UKType, Type: "Mock2", Block: -1, FileNo: 0, Line: ln})
+			perFile[0] = append(perFile[0], UseSiteInst{Tag: "alias-decl Mock2", Kind: UKType, Type: "Mock2", Block: -1, FileNo: 0, Line: ln, PKGOOnly: true})
 		}
 		w0.add("")
 	}
@@ -650,12 +670,12 @@ func RenderUse(s *UseSpec) *UseRendered {
 			w.add("")
 			continue
 		case UEParamMock:
-			ln := w.addf("func fp%d(m %s) {}", bi, mock)
+			ln := w.addf("func fp%d(m %s) {}%s", bi, mock, trailOf(b))
 			rec(nil, "func param Mock", UKType, "Mock", 0, ln)
 			w.add("")
 			continue
 		case UEResultMock:
-			ln := w.addf("func fr%d() *%s { return nil }", bi, mock)
+			ln := w.addf("func fr%d() *%s { return nil }%s", bi, mock, trailOf(b))
 			rec(nil, "func result *Mock", UKType, "Mock", 0, ln)
 			w.add("")
 			continue
@@ -667,12 +687,12 @@ func RenderUse(s *UseSpec) *UseRendered {
 			w.add("")
 			continue
 		case UEPkgVarTyped:
-			ln := w.addf("var g%d %s", bi, mock)
+			ln := w.addf("var g%d %s%s", bi, mock, trailOf(b))
 			rec(nil, "pkgvar typed Mock", UKType, "Mock", 0, ln)
 			w.add("")
 			continue
 		case UEPkgVarLit:
-			ln := w.addf("var g%d = %s{}", bi, mock)
+			ln := w.addf("var g%d = %s{}%s", bi, mock, trailOf(b))
 			rec(nil, "pkgvar lit Mock", UKType, "Mock", 0, ln)
 			w.add("")
 			continue
@@ -752,6 +772,9 @@ func ExpectUse(fam string, s *UseSpec, rd *UseRendered) [][]string {
 		if si.FileNo == 2 { // _test.go: excluded under the default configuration
 			continue
 		}
+		if fam == "TONL" && si.PKGOOnly {
+			continue
+		}
 		refs := si.Refs
 		if len(refs) == 0 {
 			refs = []UseRef{{Kind: si.Kind, Type: si.Type, Tag: si.Tag}}
@@ -816,6 +839,9 @@ func CheckUseSpec(run *common.Run, fam string, s *UseSpec) {
 	for _, d := range res.Diags {
 		if d.Analyzer != UseAnalyzer[fam] {
 			continue
+		}
+		if d.Pkg == PathC {
+			continue // the helper package that declares the third-package aliases references d's types itself; not the subject here
 		}
 		k := fmt.Sprintf("%s:%d", d.File, d.Line)
 		obs[k] = append(obs[k], d.Code)
